@@ -185,7 +185,8 @@ __CPROVER_ensures((RV == NNG_OK && g_k < URL_QCAP && STR_BEFORE_END(out, g_k, UR
 
 /* ---- nni_url_parse_inline_inner -------------------------------------------
  * C19: "accepts a string only if it has a known scheme followed by ://".
- * Input: any object of g_n+1 bytes ending in 0 (g_n <= URL_STR_CAP, grade Pb).
+ * Input: any string of g_n <= URL_STR_CAP bytes (grade Pb), right-aligned in a
+ * constant-size object so that its terminator is the object's last byte.
  * ASSUMED: the nng_url is zero-initialised (callers use nni_zalloc; the
  * parser itself tests u_scheme == NULL after the table search).
  *  accept => u_scheme is an entry of the scheme table, and the input starts
@@ -198,7 +199,11 @@ __CPROVER_ensures((RV == NNG_OK && g_k < URL_QCAP && STR_BEFORE_END(out, g_k, UR
 static nng_err nni_url_parse_inline_inner(nng_url *url, const char *raw)
     /* clang-format off */
 __CPROVER_requires(__CPROVER_is_fresh(url, sizeof(nng_url)) && URL_ZEROED(url))
-__CPROVER_requires(g_n < URL_STR_MAX && __CPROVER_is_fresh(raw, g_n + 1) && raw[g_n] == 0)
+__CPROVER_requires(STR_RIGHT_ALIGNED_PRE(raw, g_n, URL_QCAP))
+#ifdef VP_PARSE_SHORT_TAIL
+/* scheme unit only: nothing but "//" and at most one more byte after the first ':' */
+__CPROVER_requires(STR_SHORT_TAIL(raw, g_n, URL_QCAP, vp_p0))
+#endif
 __CPROVER_assigns(*url, g_alloc_ok, g_alloc_refused, g_exit)
 __CPROVER_ensures(RV == NNG_OK || RV == NNG_EINVAL || RV == NNG_ENOTSUP || RV == NNG_ENOMEM)
 __CPROVER_ensures(RV == NNG_OK ==> __CPROVER_exists { int vp_s; (0 <= vp_s && vp_s < URL_NSCHEMES) && url->u_scheme == nni_schemes[vp_s] })
